@@ -242,6 +242,59 @@ def handleAddConv (C : Curves.Params) (rs cs labelsS ms vS pkS qS : String) : Ve
                   else .bad "additive-conversion" "Σ coeff • pkShare over the quorum differs from pk"
   | _, _, _, _, _, _ => .unsupported "args"
 
+/-- one direct call on a reused MSP object: the answer for subset `S` against the model's span test and
+the defining equation `c · M_S = e₀` of a reconstruction vector -/
+def checkMspCall {q : Nat} [NeZero q] (M : Mat (Fp q)) (cols : Nat) (labels : List Nat) (call : String) : Verdict :=
+  match call.splitOn "=" with
+  | [idsS, ans] =>
+    match parseDecList? idsS with
+    | none => .unsupported "mspseq ids"
+    | some S =>
+      let rows := rowsOfSet labels S
+      let sub := rows.map fun k => M.getD k []
+      let spans := (reconCoeffs M cols rows).isSome
+      if ans == "reject" || ans == "refuses" then
+        if spans then .bad "mspseq-qualified-set-refused" s!"the rows of {S} span e0 but the MSP object answered {ans}" else .ok
+      else if ans == "accepts" then
+        if spans then .ok else .diff s!"{S}=refuses"
+      else
+        match parseNatList? ans with
+        | none => .unsupported "mspseq vector"
+        | some cs =>
+          if cs.length != rows.length then
+            .bad "mspseq-wrong-vector" s!"reconstruction vector for {S} has {cs.length} entries for {rows.length} rows" else
+          if cs.any (· ≥ q) then .bad "mspseq-wrong-vector" "entry is not a canonical scalar" else
+          let c : List (Fp q) := fpList cs
+          let ok := (List.range cols).all fun j =>
+            decide (dot c (sub.map fun r => r.getD j 0) = (if j = 0 then (1 : Fp q) else 0))
+          if ok then .ok
+          else .bad "mspseq-wrong-vector" s!"c·M_S ≠ e0 for the vector returned for {S} (coefficients of another quorum?)"
+  | _ => .unsupported "mspseq call"
+
+def handleMspSeq (nS rs cs labelsS ms callsS : String) : Verdict :=
+  match hexToNat? nS with
+  | none => .unsupported "modulus"
+  | some n =>
+  withPrime n (.unsupported "n=0") fun q =>
+  match rs.toNat?, cs.toNat?, parseDecList? labelsS with
+  | some rows, some cols, some labels =>
+    match C03.parseMat (p := q) rows cols ms with
+    | none => .unsupported "matrix"
+    | some M =>
+      if labels.length ≠ rows then .unsupported "shape" else
+      let vs := (callsS.splitOn ";").map (checkMspCall M cols labels)
+      -- first BAD, else first UNSUPPORTED, else first DIFF, else OK
+      match vs.find? (fun v => match v with | .bad _ _ => true | _ => false) with
+      | some v => v
+      | none =>
+        match vs.find? (fun v => match v with | .unsupported _ => true | _ => false) with
+        | some v => v
+        | none =>
+          match vs.find? (fun v => match v with | .diff _ => true | _ => false) with
+          | some v => v
+          | none => if vs.isEmpty then .unsupported "no calls" else .ok
+  | _, _, _ => .unsupported "args"
+
 def handle (op : String) (args : List String) (rhs : String) : Verdict :=
   if rhs != "ok" then .unsupported ("rhs " ++ rhs) else
   match op, args with
@@ -257,6 +310,7 @@ def handle (op : String) (args : List String) (rhs : String) : Verdict :=
     match Curves.byName? kc, Curves.byName? sc with
     | some Ck, some Cs => handleBls Ck Cs sk pk hm sig hp pop
     | _, _ => .unsupported ("curves " ++ kc ++ " " ++ sc)
+  | "mspseq", [n, rs, cs, labels, ms, calls] => handleMspSeq n rs cs labels ms calls
   | "addconv", [curve, rs, cs, labels, ms, v, pk, q] =>
     match Curves.byName? curve with
     | none => .unsupported ("curve " ++ curve)
